@@ -233,25 +233,25 @@ Definition agree (DU : store * store) : bool :=
             (canon id_dev (filter (fun v => negb (bytes_eqb (v_down v) id_ur)) (project (snd DU)))).
 
 (* ---------- the exchange at the level of the two stores ---------- *)
-Definition no_nan (ps : list point) : Prop := Forall (fun p => f64_is_nan (p_val p) = false) ps.
+Definition no_nan (ps : list point) : Prop := Forall (fun p => f64_is_nan (p_val p) = false /\ bad_time p = false) ps.
 
-Lemma wr_node_single st id p : f64_is_nan (p_val p) = false -> key_ok p -> nodes_ok st ->
+Lemma wr_node_single st id p : f64_is_nan (p_val p) = false -> bad_time p = false -> key_ok p -> nodes_ok st ->
   node_rows (s_nodes (wr st (NodePts id [p]))) id = ins (node_rows (s_nodes st) id) p /\
   (forall id', id' <> id -> node_rows (s_nodes (wr st (NodePts id [p]))) id' = node_rows (s_nodes st) id') /\
   nodes_ok (wr st (NodePts id [p])).
 Proof.
-  intros Hn Hk HO. unfold wr. cbn [handle].
+  intros Hn Hb Hk HO. unfold wr. cbn [handle].
   destruct (node_points st id [p]) as [st'|e] eqn:E.
   - cbn [fst]. destruct (node_points_nodes_ok st id [p] st' HO E) as (H1 & H2 & H3).
     split; [|split; assumption]. rewrite H1. unfold batch_rows. rewrite merge_batch_ins by apply HO.
     cbn [collapse map fold_left]. rewrite (normp_id p Hk). reflexivity.
-  - exfalso. unfold node_points in E. cbn [has_nan existsb] in E. rewrite Hn in E. cbn [orb] in E.
+  - exfalso. unfold node_points in E. cbn [has_nan bad_times existsb] in E. rewrite Hn, Hb in E. cbn [orb] in E.
     destruct (merge_batch false _ _). discriminate.
 Qed.
 
 Lemma apply_node_sends_rows sends : forall D U id,
   nodes_ok D -> nodes_ok U ->
-  Forall (fun s => f64_is_nan (p_val (snd s)) = false /\ key_ok (snd s)) sends ->
+  Forall (fun s => f64_is_nan (p_val (snd s)) = false /\ bad_time (snd s) = false /\ key_ok (snd s)) sends ->
   let DU := apply_node_sends D U id id sends in
   node_rows (s_nodes (fst DU)) id = recv_local (node_rows (s_nodes D) id) sends /\
   node_rows (s_nodes (snd DU)) id = recv_remote (node_rows (s_nodes U) id) sends /\
@@ -260,17 +260,17 @@ Lemma apply_node_sends_rows sends : forall D U id,
 Proof.
   induction sends as [|[up p] sends IH]; intros D U id HD HU Hs; cbv zeta.
   - cbn. auto.
-  - inversion Hs as [|? ? [Hn Hk] Hs']; subst. cbn [snd] in Hn, Hk.
+  - inversion Hs as [|? ? (Hn & Hb & Hk) Hs']; subst. cbn [snd] in Hn, Hb, Hk.
     unfold apply_node_sends. cbn [fold_left]. fold (apply_node_sends).
     destruct up.
-    + destruct (wr_node_single U id p Hn Hk HU) as (H1 & H2 & H3).
+    + destruct (wr_node_single U id p Hn Hb Hk HU) as (H1 & H2 & H3).
       change (fold_left _ sends (D, wr U (NodePts id [p]))) with (apply_node_sends D (wr U (NodePts id [p])) id id sends).
       destruct (IH D (wr U (NodePts id [p])) id HD H3 Hs') as (A & B & C). cbv zeta in A, B, C.
       split; [|split].
       * rewrite A. unfold recv_local. cbn [filter fst negb]. reflexivity.
       * rewrite B, H1. unfold recv_remote. cbn [filter fst map snd fold_left]. reflexivity.
       * intros id' Hne. destruct (C id' Hne) as [C1 C2]. split; [exact C1|]. rewrite C2. apply H2. exact Hne.
-    + destruct (wr_node_single D id p Hn Hk HD) as (H1 & H2 & H3).
+    + destruct (wr_node_single D id p Hn Hb Hk HD) as (H1 & H2 & H3).
       change (fold_left _ sends (wr D (NodePts id [p]), U)) with (apply_node_sends (wr D (NodePts id [p])) U id id sends).
       destruct (IH (wr D (NodePts id [p])) U id H3 HU Hs') as (A & B & C). cbv zeta in A, B, C.
       split; [|split].
@@ -308,12 +308,12 @@ Theorem node_exchange_store D U id t k :
                             node_rows (s_nodes (snd DU)) id' = node_rows (s_nodes U) id').
 Proof.
   intros HD HU ND NU Hties. cbv zeta.
-  assert (Hs : Forall (fun s => f64_is_nan (p_val (snd s)) = false /\ key_ok (snd s))
+  assert (Hs : Forall (fun s => f64_is_nan (p_val (snd s)) = false /\ bad_time (snd s) = false /\ key_ok (snd s))
                       (sync_points (node_rows (s_nodes D) id) (node_rows (s_nodes U) id))).
   { apply Forall_forall. intros s Hin. apply sync_points_from in Hin as [Hin|Hin].
-    - split; [unfold no_nan in ND; rewrite Forall_forall in ND; apply ND; exact Hin|].
+    - unfold no_nan in ND; rewrite Forall_forall in ND. destruct (ND _ Hin) as [A1 A2]. split; [exact A1|]. split; [exact A2|].
       destruct (HD id) as [Hk _]. unfold keys_norm in Hk. rewrite Forall_forall in Hk. apply Hk. exact Hin.
-    - split; [unfold no_nan in NU; rewrite Forall_forall in NU; apply NU; exact Hin|].
+    - unfold no_nan in NU; rewrite Forall_forall in NU. destruct (NU _ Hin) as [A1 A2]. split; [exact A1|]. split; [exact A2|].
       destruct (HU id) as [Hk _]. unfold keys_norm in Hk. rewrite Forall_forall in Hk. apply Hk. exact Hin. }
   destruct (apply_node_sends_rows _ D U id HD HU Hs) as (A & B & C). cbv zeta in A, B, C.
   rewrite A, B.
